@@ -21,6 +21,11 @@ def use_doubles():
     """Put the doubles on sys.path (only the C06/C09 shard processes do this) and return the shared recorder."""
     if DOUBLES not in sys.path:
         sys.path.insert(0, DOUBLES)
+    # the directory also holds the mpi4py double of the parallel-post-processing check; C06/C09 are single-process
+    # properties and run taurex.mpi exactly as on a machine without mpi4py (its ImportError branches)
+    if 'mpi4py' not in sys.modules:
+        sys.modules['mpi4py'] = None
+        _saved['mpi4py-blocked'] = True
     import vmon_double_common
     import pymultinest
     import pypolychord
@@ -32,6 +37,8 @@ def use_doubles():
 def drop_doubles():
     if DOUBLES in sys.path:
         sys.path.remove(DOUBLES)
+    if _saved.pop('mpi4py-blocked', None) and sys.modules.get('mpi4py', 0) is None:
+        del sys.modules['mpi4py']
 
 
 def install_nestle_tap():
